@@ -193,7 +193,7 @@ Proof.
   assert (vb = NInt n).
   { apply canonical_toQ_eq; try assumption; try exact I; try reflexivity.
     cbn. rewrite Hb. exact Hy. }
-  subst vb. unfold n_pow. unfold exact in Ea. rewrite Ea. cbn [is_flt orb].
+  subst vb. unfold n_pow. unfold exact in Ea. rewrite Ea.
   destruct (Z.leb_spec 0 n); [|lia].
   apply good_norm. rewrite Ha. reflexivity.
 Qed.
